@@ -111,9 +111,12 @@ class StubDecompressor(Native):
                     raise NoProgress("decoder of folder %d returned nothing %d times in a row" % (self.k, self.stalls))
             else:
                 self.stalls = 0
-        c = self.fresh("c")
-        eng.assume(eng.compare(ast.GtE(), c, 0))
-        eng.assume(eng.compare(ast.LtE(), eng.binop(ast.Add(), self.consumed, c), self.input_size))
+        if w.consume == "all-at-once":
+            c = eng.binop(ast.Sub(), self.input_size, self.consumed)  # the whole packed stream is read by the first call
+        else:
+            c = self.fresh("c")
+            eng.assume(eng.compare(ast.GtE(), c, 0))
+            eng.assume(eng.compare(ast.LtE(), eng.binop(ast.Add(), self.consumed, c), self.input_size))
         self.consumed = eng.binop(ast.Add(), self.consumed, c)
         fp.seek(eng, c, 1)
         ch = Chunk(self.k, self.produced, r)
@@ -133,8 +136,8 @@ class StubDecompressor(Native):
 class World:
     """per-path bookkeeping shared by the read-side stubs"""
 
-    def __init__(self, eng, progress="live", stall_limit=3):
-        self.eng, self.progress, self.stall_limit = eng, progress, stall_limit
+    def __init__(self, eng, progress="live", stall_limit=3, consume="arbitrary"):
+        self.eng, self.progress, self.stall_limit, self.consume = eng, progress, stall_limit, consume
         self.folder_total = {}
         self.decoded = []
         self.folder_crc_checked = []
@@ -215,12 +218,13 @@ def install_read_stubs(eng, world, memory_limit=None):
     install_crc(eng)
 
 
-def setup_read(eng, entries, layout, progress="live", name=None, password=None, stall_limit=3, intact=True):
+def setup_read(eng, entries, layout, progress="live", name=None, password=None, stall_limit=3, intact=True,
+               consume="arbitrary"):
     """open a reference-written archive through the real _real_get_contents and attach the read-side stubs"""
     from vf.harness import refwriter as W
     from vf.harness.session import open_for_read
 
-    world = World(eng, progress, stall_limit)
+    world = World(eng, progress, stall_limit, consume)
     install_read_stubs(eng, world)
     items = W.write_header(entries, layout, eng=eng)
     data_len = layout.get("packpos", 0)
